@@ -101,6 +101,13 @@ MUTANTS = [
     {"name": "content type of a file tuple dropped", "expect": "R2.6", "edits": [(TEST, "            self.files.add_file(key, *value)\n", "            self.files.add_file(key, *value[:2])\n")]},
     {"name": "form values overwrite instead of append", "expect": "R2.6", "edits": [(TEST, "                        self.form.setlistdefault(key).append(value)\n", "                        self.form[key] = value\n")]},
     {"name": "FileStorage values replace earlier uploads of the same name", "expect": "R2.6", "edits": [(TEST, "        if isinstance(value, tuple):\n            self.files.add_file(key, *value)\n        else:\n            self.files.add_file(key, value)\n", "        if isinstance(value, tuple):\n            self.files.add_file(key, *value)\n        elif hasattr(value, \"filename\") and hasattr(value, \"content_type\"):\n            self.files[key] = value\n        else:\n            self.files.add_file(key, value)\n")]},
+    {"name": "guessed content type overrides an explicit one", "expect": "R2.6", "edits": [("datastructures/file_storage.py", "        if filename and content_type is None:\n", "        if filename:\n")]},
+    {"name": "add_file drops the explicit filename", "expect": "R2.6", "edits": [("datastructures/file_storage.py", "        self.add(name, FileStorage(file_obj, filename, name, content_type))\n", "        self.add(name, FileStorage(file_obj, None, name, content_type))\n")]},
+    # ---------------- R2.7
+    {"name": "scanner does not advance past a quoted value", "expect": "R2.7", "edits": [("http.py", "                        parts.append((pk, rest[: pos + 1]))\n                        rest = rest[pos + 1 :]\n", "                        parts.append((pk, rest[: pos + 1]))\n")]},
+    {"name": "reader undoes percent-escaped line breaks", "expect": "R2.7", "edits": [("http.py", """.replace('\\\\"', '"').replace("%22", '"')\n\n        match = _continuation_re.search(pk)""", """.replace('\\\\"', '"').replace("%22", '"').replace("%0D", "\\r")\n\n        match = _continuation_re.search(pk)""")]},
+    {"name": "option values lower-cased", "expect": "R2.7", "edits": [("http.py", "            options[pk] = pv\n\n    return value, options\n", "            options[pk] = pv.lower()\n\n    return value, options\n")]},
+    {"name": "quoted value cut at the first semicolon", "expect": "R2.7", "edits": [("http.py", "                    elif rest[pos] == '\"':\n", "                    elif rest[pos] in '\";':\n")]},
     {"name": "content length off by the boundary line", "expect": "R2.6", "edits": [(TEST, "            content_type = f'{mimetype}; boundary=\"{boundary}\"'\n", "            content_type = f'{mimetype}; boundary=\"{boundary}\"'\n            content_length = content_length - len(boundary)\n")]},
 ]
 
@@ -610,6 +617,62 @@ TWINS = [
                     state = _PartState(part=event, size=None, store=store, write=store.write)
                     current_part, field_size, container, _write = state.part, state.size, state[2], state.write
                 elif isinstance(event, Data):
+"""),
+    ]},
+    {"name": "add_file: guard clauses and keyword construction", "edits": [("datastructures/file_storage.py", """        if filename and content_type is None:
+            content_type = (
+                mimetypes.guess_type(filename)[0] or "application/octet-stream"
+            )
+
+        self.add(name, FileStorage(file_obj, filename, name, content_type))
+""", """        if content_type is None and filename:
+            guessed = mimetypes.guess_type(filename)[0]
+            content_type = guessed if guessed else "application/octet-stream"
+
+        storage = FileStorage(stream=file_obj, filename=filename, name=name, content_type=content_type)
+        self.add(name, storage)
+""")]},
+    {"name": "parse_options_header: quoted-value scan in a helper, unquote chain split", "edits": [
+        ("http.py", """                pos = 1
+                length = len(rest)
+
+                while pos < length:
+                    if rest[pos : pos + 2] in {"\\\\\\\\", '\\\\"'}:
+                        # Consume escaped slashes and quotes.
+                        pos += 2
+                    elif rest[pos] == '"':
+                        # Stop at an unescaped quote.
+                        parts.append((pk, rest[: pos + 1]))
+                        rest = rest[pos + 1 :]
+                        break
+                    else:
+                        # Consume any other character.
+                        pos += 1
+""", """                end_quote = _closing_quote(rest)
+
+                if end_quote is not None:
+                    quoted, rest = rest[: end_quote + 1], rest[end_quote + 1 :]
+                    parts.append((pk, quoted))
+"""),
+        ("http.py", "def parse_options_header(value: str | None) -> tuple[str, dict[str, str]]:\n", """def _closing_quote(text: str) -> int | None:
+    index = 1
+
+    while index < len(text):
+        pair = text[index : index + 2]
+
+        if pair == "\\\\\\\\" or pair == '\\\\"':
+            index += 2
+            continue
+
+        if text[index] == '"':
+            return index
+
+        index += 1
+
+    return None
+
+
+def parse_options_header(value: str | None) -> tuple[str, dict[str, str]]:
 """),
     ]},
 ]
